@@ -211,7 +211,7 @@ var faultOps = []faultOp{
 	{"undefined-directive-argument-type", "undefined-type", func(t *rapid.T, st *SchemaTree) ([]string, bool) {
 		for _, d := range st.Doc.Directives {
 			if len(d.Args) > 0 {
-				d.Args[0].Type = &ref.Type{Name: "Missing"}
+				d.Args[0].Type = wrapFaulty(t, "Missing")
 				d.Args[0].Default = nil
 				return []string{"@" + d.Name, "Missing"}, true
 			}
@@ -336,7 +336,7 @@ var faultOps = []faultOp{
 		if d == nil {
 			return nil, false
 		}
-		d.Fields = append(d.Fields, &ref.FieldDef{Name: "faulty", Type: &ref.Type{Name: in.Name}})
+		d.Fields = append(d.Fields, &ref.FieldDef{Name: "faulty", Type: wrapFaulty(t, in.Name)})
 		return []string{d.Name, in.Name}, true
 	}},
 	{"output-type-in-argument", "output-type-in-input-position", func(t *rapid.T, st *SchemaTree) ([]string, bool) {
@@ -345,7 +345,7 @@ var faultOps = []faultOp{
 		if o == nil || d == nil {
 			return nil, false
 		}
-		d.Fields = append(d.Fields, &ref.FieldDef{Name: "faulty", Type: &ref.Type{Name: "Int"}, Args: []*ref.ArgDef{{Name: "x", Type: &ref.Type{Name: o.Name}}}})
+		d.Fields = append(d.Fields, &ref.FieldDef{Name: "faulty", Type: &ref.Type{Name: "Int"}, Args: []*ref.ArgDef{{Name: "x", Type: wrapFaulty(t, o.Name)}}})
 		return []string{d.Name, o.Name}, true
 	}},
 	{"output-type-in-input-field", "output-type-in-input-position", func(t *rapid.T, st *SchemaTree) ([]string, bool) {
@@ -354,7 +354,7 @@ var faultOps = []faultOp{
 		if o == nil || d == nil {
 			return nil, false
 		}
-		d.Fields = append(d.Fields, &ref.FieldDef{Name: "faulty", Type: &ref.Type{Name: o.Name}})
+		d.Fields = append(d.Fields, &ref.FieldDef{Name: "faulty", Type: wrapFaulty(t, o.Name)})
 		return []string{d.Name, o.Name}, true
 	}},
 	{"output-type-in-directive-argument", "output-type-in-input-position", func(t *rapid.T, st *SchemaTree) ([]string, bool) {
@@ -362,7 +362,7 @@ var faultOps = []faultOp{
 		if o == nil {
 			return nil, false
 		}
-		st.Doc.Directives = append(st.Doc.Directives, &ref.DirectiveDef{Name: "dfaulty", Locations: []string{"FIELD"}, Args: []*ref.ArgDef{{Name: "x", Type: &ref.Type{Name: o.Name}}}})
+		st.Doc.Directives = append(st.Doc.Directives, &ref.DirectiveDef{Name: "dfaulty", Locations: []string{"FIELD"}, Args: []*ref.ArgDef{{Name: "x", Type: wrapFaulty(t, o.Name)}}})
 		addTop(st, "directive", len(st.Doc.Directives)-1)
 		return []string{"@dfaulty", o.Name}, true
 	}},
@@ -747,4 +747,26 @@ func pruneEmptyExtensions(st *SchemaTree) {
 		order = append(order, it)
 	}
 	st.Order = order
+}
+
+// wrapFaulty: a reference to a type of the wrong kind (or to no type) is just as wrong behind
+// list and non-null wrappers: T, T!, [T], [T!]!, [[T]], [[T!]]!
+func wrapFaulty(t *rapid.T, name string) *ref.Type {
+	n := &ref.Type{Name: name}
+	switch rapid.IntRange(0, 5).Draw(t, "faultywrap") {
+	case 1:
+		n.NonNull = true
+		return n
+	case 2:
+		return &ref.Type{Elem: n}
+	case 3:
+		n.NonNull = true
+		return &ref.Type{Elem: n, NonNull: true}
+	case 4:
+		return &ref.Type{Elem: &ref.Type{Elem: n}}
+	case 5:
+		n.NonNull = true
+		return &ref.Type{Elem: &ref.Type{Elem: n}, NonNull: true}
+	}
+	return n
 }
